@@ -223,8 +223,9 @@ def run_c10(ctx):
             if mut.invariant is None:
                 raise vlib.Infra("BuildEnv.tla: the names-only hash mutant satisfies C10_Must: the invariant is vacuous")
             vlib.tlc(ctx, "BuildEnv", "MC_BuildEnv.cfg", workers=8, timeout=1500)
-        r = vlib.tlc(ctx, "BuildEnv", "GEN_BuildEnv_q.cfg" if ctx.quick else "GEN_BuildEnv_t.cfg", workers=8, timeout=1500)
-        behs, total = sample(r.behaviours, 110 if ctx.quick else 2200, ctx.seed, c10_nontrivial)
+        # one worker: BFS order, hence the representative history of every state, is then reproducible
+        r = vlib.tlc(ctx, "BuildEnv", "GEN_BuildEnv_q.cfg" if ctx.quick else "GEN_BuildEnv_t.cfg", workers=1 if ctx.quick else 6, timeout=2400)
+        behs, total = sample(r.behaviours, 110 if ctx.quick else 2000, ctx.seed, c10_nontrivial)
     ctx.extra["histories_enumerated_by_tlc"] = total
     drift = 0
     _det.clear()
@@ -489,9 +490,11 @@ def c35_replay(ctx, idx, beh):
             if not ok and st["expect"] != "ok":
                 if LABEL not in outp:
                     drift += 1
+                    trace.append("  (failure output does not name %s: %r)" % (LABEL, outp[-300:]))
                 left += sum(1 for top in OUT_TOP[shape] if os.path.lexists(os.path.join(gen, top)))
             if (rc == 0) != (st["algo"] == "ok"):
                 drift += 1
+                trace.append("  (the algorithm model predicted %s)" % st["algo"])
             if viols:
                 break
     shutil.rmtree(base, ignore_errors=True)
@@ -539,13 +542,16 @@ def run_c35(ctx):
         behs = [d["behaviour"] for d in ctx.replay_only]
         total = len(behs)
     else:
-        for cfg, key in (("MC_DeclaredHashes_concat.cfg", "flaw_concat_model_counterexample"), ("MC_DeclaredHashes_fg.cfg", "flaw_filegroup_model_counterexample")):
-            fl = vlib.tlc(ctx, "DeclaredHashes", cfg, workers=4, allow_violation=True)
-            ctx.extra[key] = fl.invariant
         if not ctx.quick:
+            # each recorded flaw of the code is, alone, a counterexample of the model; without them the model satisfies C35
+            for cfg, key in (("MC_DeclaredHashes_concat.cfg", "flaw_concat_model_counterexample"), ("MC_DeclaredHashes_fg.cfg", "flaw_filegroup_model_counterexample")):
+                fl = vlib.tlc(ctx, "DeclaredHashes", cfg, workers=4, allow_violation=True)
+                ctx.extra[key] = fl.invariant
             vlib.tlc(ctx, "DeclaredHashes", "MC_DeclaredHashes.cfg", workers=8, timeout=1500)
-        r = vlib.tlc(ctx, "DeclaredHashes", "GEN_DeclaredHashes_q.cfg" if ctx.quick else "GEN_DeclaredHashes_t.cfg", workers=8, timeout=1500)
-        behs, total = sample(r.behaviours, 130 if ctx.quick else 2500, ctx.seed, c35_nontrivial)
+        # the generating run checks that the model as the code is departs from the property only through the recorded flaws;
+        # one worker: BFS order, hence the representative history of every state, is then reproducible
+        r = vlib.tlc(ctx, "DeclaredHashes", "GEN_DeclaredHashes_q.cfg" if ctx.quick else "GEN_DeclaredHashes_t.cfg", workers=1 if ctx.quick else 6, timeout=2400)
+        behs, total = sample(r.behaviours, 120 if ctx.quick else 1500, ctx.seed, c35_nontrivial)
     ctx.extra["histories_enumerated_by_tlc"] = total
     drift = left = 0
     results = run_pool(lambda i, b: c35_replay(ctx, i, b), behs)
